@@ -90,6 +90,9 @@ func ParseWriteMultipleCoilsRequestTCP(data []byte) (*WriteMultipleCoilsRequestT
 	if err != nil {
 		return nil, err
 	}
+	if tooShort := checkTCPRequestLength(header, data, FunctionWriteMultipleCoils, 13); tooShort != nil {
+		return nil, tooShort
+	}
 	unitID := data[6]
 	if data[7] != FunctionWriteMultipleCoils {
 		tmpErr := NewErrorParseTCP(ErrIllegalFunction, "received function code in packet is not 0x0f")
